@@ -22,6 +22,13 @@ type fataler interface{ Fatalf(string, ...any) }
 func Decide(t fataler, s *graph.Scenario, obsOrders []int, tag string) {
 	in := s.Instantiate()
 	idOf := func(c any) int {
+		for {
+			w, isW := c.(*zoo.W)
+			if !isW {
+				break
+			}
+			c = w.Target // observers that run after the substituting processor see the substitute
+		}
 		v := reflect.ValueOf(c)
 		if v.Kind() == reflect.Pointer {
 			if id, ok := in.IDs[v.Pointer()]; ok {
@@ -42,7 +49,7 @@ func Decide(t fataler, s *graph.Scenario, obsOrders []int, tag string) {
 	// some single-valued points already hold a (foreign, unregistered) value when the start begins:
 	// the container must still resolve, create and initialise their real targets first
 	prefilled := 0
-	if strings.HasSuffix(tag, "+prefill") {
+	if strings.Contains(tag, "+prefill") {
 		for i, c := range in.Comps {
 			v := reflect.ValueOf(c).Elem()
 			for _, fn := range []string{"Nx", "G", "BN"} {
@@ -53,6 +60,20 @@ func Decide(t fataler, s *graph.Scenario, obsOrders []int, tag string) {
 				}
 			}
 		}
+	}
+	// some components (never the ones others may hold by pointer type) are replaced by a decorator in the
+	// before-initialization callbacks; the decorator has initialization methods of its own that pass the call on
+	wrappedBefore := map[int]bool{}
+	if strings.Contains(tag, "+wrapbefore") {
+		plan := map[string]graph.WrapPlan{}
+		for i, n := range s.Nodes {
+			if n.Variant != 'N' && n.Variant != 'X' && n.Variant != 'Y' && (i+len(s.Nodes))%2 == 0 {
+				nm, _ := model.NameOf(in.Comps[i])
+				plan[nm] = graph.WrapPlan{Before: graph.WrapNew}
+				wrappedBefore[i] = true
+			}
+		}
+		in.Extra = append(in.Extra, &graph.PlainWrapPP{Plan: plan})
 	}
 	in.Run()
 	desc := fmt.Sprintf("%s %s obs=%v", tag, s.Shape(), obsOrders)
@@ -76,6 +97,9 @@ func Decide(t fataler, s *graph.Scenario, obsOrders []int, tag string) {
 					continue
 				}
 				for _, sx := range graph.Observe(g, p) {
+					if sx.Comp == nil && sx.Wrapper != nil && sx.Wrapper.Target != nil && g.Find(sx.Wrapper.Target) != nil {
+						continue // the decorator of a registered component, not the pre-filled placeholder
+					}
 					if sx.Comp == nil {
 						t.Fatalf("C05: %v still holds the pre-filled value %v although %v are admissible: the point was not populated\n%s", p, sx, p.Cands, desc)
 					}
@@ -90,6 +114,7 @@ func Decide(t fataler, s *graph.Scenario, obsOrders []int, tag string) {
 	type life struct {
 		before, after []int
 		aps, init     []int
+		waps, winit   []int // initialization methods of the decorator that replaced the component before initialization
 		firstSnap     []string
 	}
 	lives := make([]life, n)
@@ -113,6 +138,10 @@ func Decide(t fataler, s *graph.Scenario, obsOrders []int, tag string) {
 			l.aps = append(l.aps, i)
 		case "init":
 			l.init = append(l.init, i)
+		case "waps":
+			l.waps = append(l.waps, i)
+		case "winit":
+			l.winit = append(l.winit, i)
 		}
 	}
 	dump := func() string {
@@ -133,11 +162,32 @@ func Decide(t fataler, s *graph.Scenario, obsOrders []int, tag string) {
 		seen := map[int]bool{}
 		for _, p := range g.Points[c] {
 			for _, sx := range graph.Observe(g, p) {
+				if sx.Comp == nil && sx.Wrapper != nil {
+					sx.Comp = g.Find(sx.Wrapper.Target) // a decorator stands for the component it wraps
+				}
 				if sx.Comp != nil && sx.Comp.ID >= 0 && !seen[sx.Comp.ID] {
 					seen[sx.Comp.ID] = true
 					holds[id] = append(holds[id], sx.Comp.ID)
 					heldBy[sx.Comp.ID] = append(heldBy[sx.Comp.ID], id)
 				}
+			}
+		}
+	}
+	// a lookup a component performs in its Init is a dependency as well (it may close a cycle no field shows)
+	byName := map[string]int{}
+	for id := 0; id < n; id++ {
+		if c := in.Comp(id); c != nil {
+			byName[c.Name] = id
+		}
+	}
+	for id := 0; id < n && id < len(in.Behs); id++ {
+		if in.Behs[id] == nil {
+			continue
+		}
+		for _, nm := range in.Behs[id].InitLookups {
+			if tid, ok := byName[nm]; ok && tid != id {
+				holds[id] = append(holds[id], tid)
+				heldBy[tid] = append(heldBy[tid], id)
 			}
 		}
 	}
@@ -217,6 +267,28 @@ func Decide(t fataler, s *graph.Scenario, obsOrders []int, tag string) {
 		}
 		if l.aps[0] > l.init[0] {
 			t.Fatalf("C05: %s: Init ran before AfterPropertiesSet\n%s\nlog: %s", c.Name, desc, dump())
+		}
+		if wrappedBefore[id] && hasPPNode && len(l.waps) == 0 && len(l.winit) == 0 {
+			// created while the processor chain was still being assembled (pulled in by a node that is itself a
+			// post-processor), before the substituting processor had joined it: legitimately not replaced
+			labels = append(labels, "created-before-the-substituting-processor")
+		} else if wrappedBefore[id] {
+			// what leaves the before-initialization callbacks is what gets initialised: the decorator's own methods run,
+			// exactly once, each right before it passes the call on
+			if len(l.waps) != 1 || len(l.winit) != 1 {
+				t.Fatalf("C05: %s was replaced by a decorator before initialization: the decorator's AfterPropertiesSet ran %d times, its Init %d times (exactly once each expected)\n%s\nlog: %s", c.Name, len(l.waps), len(l.winit), desc, dump())
+			}
+			if !(l.waps[0] < l.aps[0] && l.aps[0] < l.winit[0] && l.winit[0] < l.init[0]) {
+				t.Fatalf("C05: %s: decorator and component initialization methods out of order\n%s\nlog: %s", c.Name, desc, dump())
+			}
+			for _, x := range l.before {
+				if x > l.waps[0] {
+					t.Fatalf("C05: %s: a before-initialization callback ran after the decorator's AfterPropertiesSet\n%s\nlog: %s", c.Name, desc, dump())
+				}
+			}
+			labels = append(labels, "replaced-before-initialization")
+		} else if len(l.waps) != 0 || len(l.winit) != 0 {
+			t.Fatalf("C05: %s: decorator initialization methods ran although nothing replaced it\n%s\nlog: %s", c.Name, desc, dump())
 		}
 		for _, x := range l.after {
 			if x < l.init[0] {
@@ -314,10 +386,13 @@ func genObs(t *rapid.T) []int {
 func TestLifecycle(t *testing.T) {
 	kit.Rec.Rule(rule)
 	rapid.Check(t, func(t *rapid.T) {
-		s := graph.Gen(t, graph.GenOpts{MinNodes: 2, MaxNodes: 6, Variants: "NNLLPEXYU", Aliases: true})
+		s := graph.Gen(t, graph.GenOpts{MinNodes: 2, MaxNodes: 6, Variants: "NNLLPEXYUH", Aliases: true, Lookups: true})
 		tag := "rich"
 		if rapid.IntRange(0, 3).Draw(t, "prefill") == 0 {
 			tag += "+prefill"
+		}
+		if rapid.IntRange(0, 2).Draw(t, "wrapbefore") == 0 {
+			tag += "+wrapbefore"
 		}
 		Decide(t, s, genObs(t), tag)
 	})
